@@ -50,8 +50,10 @@ static struct {
 	int done_ops[RT_MAXT];
 	int ip[RT_MAXT];
 	int picked[RT_MAXT];
+	int waits_started[RT_MAXT];
 } S;
 static int maxsleeps;
+static int fine_notes;    /* VERIF_FINE: the cancellation note's operations are interleaved at atomic-operation granularity (random mode only) */
 static waiter *wtab[16]; static int nwtab;
 static int sb_limit = 1000000;    /* O-starve bound, set from the command line */
 
@@ -119,7 +121,8 @@ static void client (void *arg) {
 			break;
 		case O_GATE: ip++; break;
 		case O_SKIPUNLESS: ip += (S.ret[t] != 1) ? 1 + o->skip : 1; break;
-		case O_MUWAIT: {
+		case O_MUWAIT: S.waits_started[t]++; /* fall through */
+		case O_MUWAIT + 1000: {
 			struct cond *c = o->c ? &S.conds[o->c - 1] : NULL;
 			int r, mode = rt_held_by (S.mu, t);
 			ip++;
@@ -130,6 +133,7 @@ static void client (void *arg) {
 			if (c) { int ct = *c->arg->cell != 0; if ((r == 0) != ct) rt_violation ("O-ret", "nsync_mu_wait_with_deadline returned %d but its condition is %s", r, ct ? "true" : "false"); }
 			break; }
 		case O_CVWAIT: case O_CVLOOP: {
+			S.waits_started[t]++;
 			int r, mode = rt_held_by (S.mu, t);
 			if (o->op == O_CVLOOP) {
 				__tsan_read4 (&S.cells[o->v - 1]);
@@ -143,6 +147,7 @@ static void client (void *arg) {
 			{ struct op oo = *o; oo.lt = mode; check_ret (t, &oo, r, "nsync_cv_wait_with_deadline"); }
 			break; }
 		case O_WAITN: case O_WAITNLOOP: {
+			S.waits_started[t]++;
 			struct nsync_waitable_s wa, *pwa = &wa;
 			int r;
 			if (o->op == O_WAITNLOOP) {
@@ -161,7 +166,7 @@ static void client (void *arg) {
 		case O_SIGNAL: ip++; nsync_cv_signal (S.cv); break;
 		case O_BROADCAST: ip++; nsync_cv_broadcast (S.cv); break;
 		case O_DEBUG: { char buf[400]; ip++; nsync_mu_debug_state_and_waiters (S.mu, buf, (int) sizeof buf); break; }
-		case O_NOTIFY: ip++; rt_noyield_begin (); S.notified = 1; nsync_note_notify (S.note); rt_noyield_end (); break;
+		case O_NOTIFY: ip++; if (fine_notes) { S.notified = 1; nsync_note_notify (S.note); } else { rt_noyield_begin (); S.notified = 1; nsync_note_notify (S.note); rt_noyield_end (); } break;
 		case O_DECREF: ip++; S.refs--; S.ret[t] = (S.refs == 0); break;
 		case O_FREEIFLAST: ip++; if (S.ret[t] == 1) { S.word_at_free = *(volatile uint32_t *) &S.mu->word; S.mu_freed = 1; rt_free (S.mu); } break;
 		default: ip++; break;
@@ -234,15 +239,16 @@ static void setup (const char *init) {
 }
 
 /* scenario gates: a thread whose next operation is gate(k) starts only once k threads are queued (mutex + cv queues) */
-static int qlen (nsync_dll_list_ l) { int k = 0; nsync_dll_element_ *p; for (p = nsync_dll_first_ (l); p != NULL && k < 32; p = nsync_dll_next_ (l, p)) k++; return k; }
+static int replay_mode;
 static int client_gate (int t) {
 	struct op *o;
+	int i, started = 0;
+	if (replay_mode) return 1;              /* the specification decides when a gate opens */
 	if (S.ip[t] >= S.nops[t]) return 1;
 	o = &S.prog[t][S.ip[t]];
 	if (o->op != O_GATE) return 1;
-	if (S.mu_freed) return 1;
-	if ((*(volatile uint32_t *) &S.mu->word & MU_SPINLOCK) || (*(volatile uint32_t *) &S.cv->word & CV_SPINLOCK)) return 0;
-	return qlen (S.mu->waiters) + qlen (S.cv->waiters) >= o->x;
+	for (i = 0; i < S.n; i++) started += S.waits_started[i] > 0;
+	return started >= o->x;
 }
 
 /* ---- projection ---- */
@@ -522,9 +528,10 @@ int main (int argc, char **argv) {
 	rt_client_gate = client_gate;
 	rt_track_stack_frames (1);
 	if (getenv ("VERIF_HB")) rt_hb_enable (1);
+	if (getenv ("VERIF_FINE")) { fine_notes = 1; rt_swc_region = 0; }
 	rt_snapshot ();
 	if (!strcmp (argv[1], "replay")) {
-		FILE *f = strcmp (argv[2], "-") ? fopen (argv[2], "r") : stdin;
+		FILE *f; replay_mode = 1; f = strcmp (argv[2], "-") ? fopen (argv[2], "r") : stdin;
 		if (!f) { perror (argv[2]); return 2; }
 		memset (&st, 0, sizeof st);
 		rp_run (f, &h, &st, argc > 3 ? argv[3] : NULL, prop);
